@@ -17,6 +17,19 @@ package pathbadger
 //@   ensures result1 == (m.value.LastFinalizedVersion != nil)
 //@   ensures result1 ==> result0 == *m.value.LastFinalizedVersion
 
+//@ func metadata.setLastFinalizedVersion
+//@   props C06 C12
+//@   ensures forall w uint64 :: w != version ==> inDom(m.value.NextPendingRootSeq, w) == old(inDom(m.value.NextPendingRootSeq, w)) && sameRef(m.value.NextPendingRootSeq[w], old(m.value.NextPendingRootSeq[w]))
+//@   ensures forall w uint64 :: w != version ==> inDom(m.value.PendingRootSeqs, w) == old(inDom(m.value.PendingRootSeqs, w)) && sameRef(m.value.PendingRootSeqs[w], old(m.value.PendingRootSeqs[w]))
+//@   note finalizing a version drops the bookkeeping of THAT version only: the sequence numbers already handed out to candidate roots of other (later, still pending) versions stay reserved - a reservation that is forgotten is handed out again and the second candidate's nodes overwrite the first one's in the version's key space (seed C06_h)
+
+//@ func metadata.reserveRootSeqNo
+//@   props C06 C12
+//@   ensures err == nil ==> result0 == old(m.value.NextPendingRootSeq[version][rootType]) && m.value.NextPendingRootSeq[version][rootType] == result0 + 1
+//@   ensures err == nil ==> result0 < 65535
+//@   ensures forall w uint64 :: w != version && old(inDom(m.value.NextPendingRootSeq, w)) ==> sameRef(m.value.NextPendingRootSeq[w], old(m.value.NextPendingRootSeq[w]))
+//@   note the number handed out is the recorded next one and the record moves past it: two reservations for the same version and root type never get the same number
+
 //@ func badgerNodeDB.Prune
 //@   props C06
 //@   requires d != nil
